@@ -73,11 +73,18 @@ func (s *Sim) NewRun(actor string, plan map[int]Fault) *Run {
 	return &Run{sim: s, Actor: actor, Plan: plan, FirstWrite: -1}
 }
 
+// LagHideNew is a lag value for StaleClient, see there.
+const LagHideNew = -1
+
 // Client returns a client bound to this run that reads live state.
 func (r *Run) Client() *Client { return &Client{sim: r.sim, run: r} }
 
 // StaleClient returns a client whose reads of the objects selected by lag
 // return older versions (writes always hit the live store).
+//
+// A lag of LagHideNew hides an object that has been written exactly once (it was
+// only just created and the cache has not seen it yet) and shows every other
+// object as it is now.
 func (r *Run) StaleClient(lag func(k Key) int) *Client { return &Client{sim: r.sim, run: r, lag: lag} }
 
 // Client returns a fault-free client for the given actor.
@@ -206,7 +213,11 @@ func (c *Client) Get(_ context.Context, key client.ObjectKey, obj client.Object,
 	if e := s.objs[k]; e != nil {
 		o = e.cur()
 		if c.lag != nil {
-			if n := c.lag(k); n > 0 {
+			if n := c.lag(k); n == LagHideNew {
+				if len(e.versions) == 1 {
+					o = nil
+				}
+			} else if n > 0 {
 				i := len(e.versions) - 1 - n
 				if i < 0 {
 					o = nil
@@ -265,7 +276,11 @@ func (c *Client) List(_ context.Context, list client.ObjectList, opts ...client.
 		e := s.objs[k]
 		o := e.cur()
 		if c.lag != nil {
-			if n := c.lag(k); n > 0 {
+			if n := c.lag(k); n == LagHideNew {
+				if len(e.versions) == 1 {
+					o = nil
+				}
+			} else if n > 0 {
 				i := len(e.versions) - 1 - n
 				if i < 0 {
 					o = nil
